@@ -314,7 +314,7 @@ func runC18(e *core.Env) error {
 		w.close()
 	}
 	// (E) one declaration on two sources through the real Manager / loadTasks
-	for s := 0; s < e.N(4, 16); s++ {
+	for s := 0; s < e.N(8, 24); s++ {
 		out := twoSourceManager(ctx, r.Fork(), s)
 		e.Add(core.Case{Impl: out, Spec: "ok", Key: fmt.Sprintf("c18-two-sources %d", s), Nontrivial: true, Tags: []string{"scenarios", "one-declaration-two-sources-through-loadTasks"}})
 	}
